@@ -37,6 +37,15 @@ def regenerate_src():
         T = srctrans.generate(core.REPO, os.path.join(core.CACHE, "srctrans-%d" % os.getpid()))
         text = T.emit()
         note = "GeneratedSrc.lean: %d functions translated from the clang AST, %d outside the subset" % (len(T.order), len(T.failed))
+        from . import srcfields
+        ftext, nprog, nent, notes = srcfields.generate(T)
+        note += "; GeneratedSrcFields.lean: %d bit programs, %d field-accessor entries, %d accessors not covered" % (nprog, nent, len(notes))
+        pf = os.path.join(core.LEAN, "AsamCmp", "GeneratedSrcFields.lean")
+        oldf = open(pf).read() if os.path.exists(pf) else None
+        if oldf != ftext:
+            with core.Lock("lake"):
+                with open(pf, "w") as f:
+                    f.write(ftext)
     except srctrans.Untranslatable as e:
         text = "/- GENERATED: the translator could not run: %s -/\nimport AsamCmp.Src.Sem\nnamespace AsamCmp.SrcGen\nend AsamCmp.SrcGen\n" % str(e).replace("-/", "- /")[:600]
         note = "GeneratedSrc.lean: translator failed (%s)" % str(e)[:200]
